@@ -169,8 +169,6 @@ theorem reachable_closed {f : Func} {R : List BlockId} (h : reachable f = some R
 
 /-! ### simulation -/
 
-def UniqueIds (f : Func) : Prop := (f.blocks.map (·.id)).Nodup
-
 theorem find_of_nodup_ids (l : List Block) (hu : (l.map (·.id)).Nodup) {B : Block} (hB : B ∈ l) :
     l.find? (fun C => C.id = B.id) = some B := by
   induction l with
